@@ -10,6 +10,7 @@ from __future__ import annotations
 import concurrent.futures as cf
 import contextlib
 import io
+import json
 import os
 import pathlib
 import shutil
@@ -177,7 +178,12 @@ def run_battery(ctx, mutants: list[dict], twins: list[dict] | None = None) -> di
             if d.name.startswith(f"{ctx.prop}-"):
                 mutants.append(dict(name=f"seeded:{d.name}", patch=str(pf), expect=[ctx.prop + "."]))
             elif d.name.startswith(f"twin-{ctx.prop}-"):
-                twins.append(dict(name=f"seeded:{d.name}", patch=str(pf)))
+                limit = None
+                try:
+                    limit = json.loads((d / "meta.json").read_text()).get("known_limit")
+                except Exception:
+                    pass
+                twins.append(dict(name=f"seeded:{d.name}", patch=str(pf), known_limit=limit))
     base = {(f.rule, f.construct) for f in ctx.findings}
     jobs = [(ctx.prop, str(ctx.root), m) for m in mutants + twins]
     workers = min(16, max(1, len(jobs)), os.cpu_count() or 4)
@@ -186,7 +192,7 @@ def run_battery(ctx, mutants: list[dict], twins: list[dict] | None = None) -> di
         with cf.ProcessPoolExecutor(max_workers=workers) as ex:
             results = list(ex.map(_one, jobs))
     by = {r["name"]: r for r in results}
-    fired, silent, skipped, broken = [], [], [], []
+    fired, silent, skipped, broken, limits = [], [], [], [], []
     for m in mutants:
         r = by[m["name"]]
         if r["status"] == "skipped":
@@ -208,10 +214,15 @@ def run_battery(ctx, mutants: list[dict], twins: list[dict] | None = None) -> di
             skipped.append(f"{t['name']}: {r['why']}")
             continue
         if r["status"] != "ran":
-            broken.append(f"twin {t['name']}: {r['status']} {r.get('why', '')}")
+            if t.get("known_limit"):
+                limits.append({"twin": t["name"], "raised": [f"{r['status']} {r.get('why', '')}"[:160]], "why": t["known_limit"]})
+            else:
+                broken.append(f"twin {t['name']}: {r['status']} {r.get('why', '')}")
             continue
         new = [tuple(k) for k in r["keys"] if tuple(k) not in base]
-        if new:
+        if new and t.get("known_limit"):
+            limits.append({"twin": t["name"], "raised": [f"{k[0]} {k[1]}" for k in new][:3], "why": t["known_limit"]})
+        elif new:
             broken.append(f"twin {t['name']} (behaviour-preserving) raised {new[:3]}: {r['msgs'][:2]}")
         else:
             silent.append(t["name"])
@@ -222,5 +233,6 @@ def run_battery(ctx, mutants: list[dict], twins: list[dict] | None = None) -> di
         "selftest_mutants_fired": len(fired), "selftest_mutants_total": len(mutants),
         "selftest_twins_silent": len(silent), "selftest_twins_total": len(twins),
         "selftest_skipped": skipped, "selftest_broken": broken,
+        "selftest_known_limits": limits,
         "selftest_samples": fired[:40],
     }
